@@ -252,10 +252,17 @@ def d5(ctx, rid):
     c04.t7(ctx, rid)
 
 
+def d6(ctx, rid):
+    """records on disk lie where their index entries say: reserved offsets are honoured by the OS (C11.F9 instance)"""
+    import props.c11 as c11
+    c11.f9(ctx, rid)
+
+
 RULES = [
     Rule('C08.D1', 'the wait-for graph over lock classes, the bounded worker channel and task joins has no cycle with conflicting modes', d1, 1),
     Rule('C08.D2', 'every record append on a blob is made with exclusive access that is still held at the index push of that record', d2, 2),
     Rule('C08.D3', 'no std::sync guard is live at a suspension point', d3, 1),
     Rule('C08.D5', 'the active slot is assigned only where it was seen empty through the exclusive guard in hand (no check-then-act across two acquisitions)', d5, 4),
+    Rule('C08.D6', 'no file of the io layer is opened with O_APPEND: the reserved offset is the offset written (C11.F9 instance)', d6, 1),
     Rule('C08.D4', 'append offsets originate only in the atomic size reservation; the counter is only loaded / fetch_add-ed', d4, 5),
 ]
